@@ -17,6 +17,18 @@ T = {
  'C19-1': ('C19', 'bay history: calc_kA, then change bay.aeromu, then calc_cA (attribute frozen on the skin panel overrides the argument)', 'C19', 'calc_cA is not -i*aeromu*Int(w_A w_B); bay cA differs ... (coefficient changed after an earlier evaluation)', 'missed at first; attribute!=argument letter and bay coefficient-change history added'),
  'C19-2': ('C19', 'negative gamma with flow x and finalize=True (curvature part kept symmetric only for gamma > 0)', 'C19', 'calc_kA is not beta*Int(w_A dw_B/dflow) - gamma*Int(w_A w_B)', 'missed at first; negative-gamma coefficient letter added'),
 }
+T.update({
+ 'C20-3': ('C20', 'bay history: plot_skin(deform_u=True) deforms the stored default grid in place, a later uvw_skin on the same default grid re-uses it (grid cache keyed on (a,b,gridx,gridy))', 'C20', 'StiffPanelBay/*: result of uvw_skin_grid depends on the call history', 'missed at first; plot operations and default-grid field queries added to the call alphabet, bay series orders raised so that u,v are active'),
+ 'C20-4': ('C20', 'Panel.lb() overwrites the panel integration rule nx, ny with its defaults: later calc_fint/calc_kT/kG0(c) on the same panel differ from a fresh panel', 'C20', 'Panel/*: result of kT / kG0c / fint depends on the call history', 'caught as built'),
+ 'C11-3': ('C11', 'user-supplied 2-D point arrays that are not C-contiguous (transposed mesh, Fortran order): points flattened in memory order, results reshaped in C order', 'C11', 'strain report does not return the requested coordinates; w differs from the Ritz series', 'missed at first; non-contiguous 2-D point-set letter added'),
+ 'C11-4': ('C11', 'assembly group with >= 2 panels of different laminates: stress of later panels uses the first panel ABD', 'C11', "assembly stress of a panel is not that panel's laminate matrix times its strains", 'caught as built'),
+ 'C08-3': ('C08', 'force_orthotropic_laminate=True with an unbalanced laminate: analytic k0 and numeric fint/kT use different laminate matrices', 'C08', 'linear stiffness differs from the strain-energy Hessian for the laminate used by the non-linear quantities; tangent at the undeformed state is not the linear stiffness', 'missed at first; forced-orthotropic option letter (with generic flags) added'),
+ 'C08-4': ('C08', 'assembly history: calc_kT/calc_k0(finalize=False) before the connection matrix is cached stores the un-symmetrised penalty matrix', 'C08', 'assembly tangent not symmetric', 'missed at first; finalize=False-first history letter added (also in the C20 assembly alphabet)'),
+ 'C12-3': ('C12', 'history on the same Panel objects: penalty constants evaluated, ply properties scaled, evaluated again (laminate not rebuilt)', 'C12', 'penalty constant kt/kr of re-used panels does not follow their changed ply properties', 'missed at first; re-use history added to the penalty-constant cases'),
+ 'C12-4': ('C12', 'T-stiffener with eta_conn_flange != -1 and bb != bf: flange-side interface position computed with the base width', 'C12', 'T-stiffener: base-flange coupling block / flange block is not the connection Hessian on the stated interface line', 'missed at first; connection lists assembled inside TStiff2D / BladeStiff2D are now compared with the mismatch-energy Hessian'),
+ 'C13-3': ('C13', 'bay with both 2D stiffener kinds, a T stiffener added before a blade stiffener, and a force on a stiffener: force blocks laid out in insertion order', 'C13', "bay force vector is not the skin forces plus each stiffener's forces at that stiffener's own range", 'missed at first; force-vector composition added to the bay cases'),
+ 'C13-4': ('C13', 'blade stiffener with a base and a skin cut closer than bb/2 to the stiffener: base clipped to the adjacent skin pieces', 'C13', 'splitting the skin at further positions changes the global k0/kM of a stiffened bay', 'missed at first; wider base and the further-cuts invariance with stiffeners present added'),
+})
 for sid, (prop, needs, check, msg, hist) in T.items():
     d = '/verif/seeded/' + sid
     if not os.path.isdir(d):
